@@ -4,7 +4,8 @@ Import ListNotations.
 
 (* the shape of Start and Kill the theorems rest on (each conjunct a fact read from client.go) *)
 Definition shape (P : sf_params) : Prop :=
-  sf_records_first P = true /\ sf_kill_forces P = true /\ sf_kill_removes_dir P = true /\ sf_kill_forgets P = true.
+  sf_records_first P = true /\ sf_kill_forces P = true /\ sf_kill_removes_dir P = true /\ sf_kill_forgets P = true /\
+  sf_start_kill_ctx_fresh P = true.
 
 Lemma sf_kill_done P s : sc_runner s = false -> sf_kill P s = s.
 Proof. intros H. unfold sf_kill. rewrite H. reflexivity. Qed.
@@ -28,7 +29,7 @@ Theorem kill_after_failed_runner_start P l launched n :
   let s := sf_kills P n (failed_runner_start P l launched true) in
   sc_workload s = false /\ sc_dir s = false /\ sc_kills s = 1%nat /\ sc_runner s = false.
 Proof.
-  intros (HP & Hf & Hd & Hg) Hn. destruct P as [a b c d]. cbn in HP, Hf, Hd, Hg. subst a b c d.
+  intros (HP & Hf & Hd & Hg & _) Hn. destruct P as [a b c d e]. cbn in HP, Hf, Hd, Hg. subst a b c d.
   destruct n as [|n]; [lia|]. cbn [sf_kills].
   unfold failed_runner_start, sf_kill at 1. cbn [sc_runner sc_named sc_dir sc_workload sc_kills sf_records_first
     sf_kill_forces sf_kill_removes_dir sf_kill_forgets andb negb].
